@@ -159,6 +159,14 @@ def run():
     quick = common.tier() == "quick"
     n = 5000 if quick else 50000
     cases = common.gen_cases(n, common.seed(), common.GREEDY_OPTS, k_states=24 if quick else 96)
+    # the targeted families (boundary distances between two addresses, interchangeable items, duplicated terms, tight
+    # store/load pairs, wrap-around constants) get a fixed share besides their weight in the generic mix
+    extra = common.gen_cases(n // 5, common.seed() + 1010, common.GREEDY_OPTS, k_states=24 if quick else 96,
+                             kinds=["overlap", "overlap", "overlap", "symm", "dupterms", "tiny", "wrap", "identity"])
+    for c_ in extra:
+        c_["idx"] += len(cases)
+        c_.pop("want_sample", None)
+    cases = cases + extra
     # solver back-ends with the stand-in solver: the Max-SMT optimum and adversarial (non-optimal) models
     import random as _random
     from monitors import c06
